@@ -14,8 +14,8 @@ import subprocess
 import sys
 
 VERIF = os.path.dirname(os.path.dirname(os.path.abspath(__file__)))
-WT = "/tmp/seedeval/wt"
-OUT = "/tmp/seedeval/results.json"
+WT = os.environ.get("SEED_WT", "/tmp/seedeval/wt")
+OUT = os.environ.get("SEED_RESULTS", "/tmp/seedeval/results.json")
 
 
 def sh(cmd, cwd=None, timeout=900):
@@ -27,7 +27,7 @@ def fresh():
     sh("git -C /repo worktree remove --force %s" % WT)
     sh("rm -rf %s" % WT)
     os.makedirs(os.path.dirname(WT), exist_ok=True)
-    rc, out = sh("git -C /repo worktree add --detach %s HEAD" % WT)
+    rc, out = sh("git -C /repo worktree add --detach %s %s" % (WT, os.environ.get("REPO_BASE", "HEAD")))
     assert rc == 0, out
 
 
